@@ -58,4 +58,81 @@ theorem unquote_quote (s : Str) : unquote (quote s) = some s := by
   rw [h1, h2]
   exact unescape_escape s
 
+/-! ### every legal spelling reads back as the same string -/
+
+theorem hexVal_lower : ∀ k, k < 16 → hexVal (hexDigitLower k) = some k := by decide
+theorem hexVal_upper : ∀ k, k < 16 → hexVal (hexDigitUpper k) = some k := by decide
+
+theorem hex4_hex4Str (upper : Bool) (n : Nat) (h : n < 65536) :
+    ∃ a b c d, hex4Str upper n = [a, b, c, d] ∧ hex4 a b c d = some n := by
+  refine ⟨_, _, _, _, rfl, ?_⟩
+  have e : ∀ k, k < 16 → hexVal (if upper then hexDigitUpper k else hexDigitLower k) = some k := by
+    intro k hk; cases upper <;> simp [hexVal_lower k hk, hexVal_upper k hk]
+  simp only [hex4, e _ (Nat.mod_lt _ (by decide : 0 < 16)), Option.bind_eq_bind, Option.bind_some, Option.pure_def]
+  congr 1
+  omega
+
+theorem unescape_u (a b c d : Char) (t : Str) (code : Nat) (h : hex4 a b c d = some code)
+    (h1 : ¬ (0xD800 ≤ code ∧ code ≤ 0xDBFF)) (h2 : ¬ (0xDC00 ≤ code ∧ code ≤ 0xDFFF)) :
+    unescape ('\\' :: 'u' :: a :: b :: c :: d :: t) = (unescape t).map (Char.ofNat code :: ·) := by
+  conv => lhs; unfold unescape
+  simp [h, h1, h2]
+
+theorem unescape_uu (a b c d a2 b2 c2 d2 : Char) (t : Str) (hi lo : Nat)
+    (h : hex4 a b c d = some hi) (h' : hex4 a2 b2 c2 d2 = some lo)
+    (hhi : 0xD800 ≤ hi ∧ hi ≤ 0xDBFF) (hlo : 0xDC00 ≤ lo ∧ lo ≤ 0xDFFF) :
+    unescape ('\\' :: 'u' :: a :: b :: c :: d :: '\\' :: 'u' :: a2 :: b2 :: c2 :: d2 :: t) =
+      (unescape t).map (Char.ofNat (0x10000 + (hi - 0xD800) * 0x400 + (lo - 0xDC00)) :: ·) := by
+  conv => lhs; unfold unescape
+  simp [h, h', hhi, hlo]
+
+theorem char_range (c : Char) : c.toNat < 0xD800 ∨ (0xDFFF < c.toNat ∧ c.toNat < 0x110000) := by
+  have h : c.val.toNat.isValidChar := c.valid
+  unfold Nat.isValidChar at h
+  exact h
+
+theorem unescape_escapeCharU (upper : Bool) (c : Char) (t : Str) :
+    unescape (escapeCharU upper c ++ t) = (unescape t).map (c :: ·) := by
+  have hr := char_range c
+  unfold escapeCharU
+  by_cases hlt : c.toNat < 0x10000
+  · simp only [hlt, ↓reduceIte]
+    obtain ⟨a, b, c2, d, e1, e2⟩ := hex4_hex4Str upper c.toNat (by omega)
+    rw [e1]
+    have := unescape_u a b c2 d t c.toNat e2 (by omega) (by omega)
+    simpa [Char.ofNat_toNat] using this
+  · simp only [hlt, ↓reduceIte]
+    obtain ⟨a, b, c2, d, e1, e2⟩ := hex4_hex4Str upper (0xD800 + (c.toNat - 0x10000) / 0x400) (by omega)
+    obtain ⟨a', b', c', d', e1', e2'⟩ := hex4_hex4Str upper (0xDC00 + (c.toNat - 0x10000) % 0x400) (by omega)
+    rw [e1, e1']
+    have := unescape_uu a b c2 d a' b' c' d' t _ _ e2 e2' (by omega) (by omega)
+    have hc : 0x10000 + (0xD800 + (c.toNat - 0x10000) / 0x400 - 0xD800) * 0x400 +
+        (0xDC00 + (c.toNat - 0x10000) % 0x400 - 0xDC00) = c.toNat := by omega
+    rw [hc, Char.ofNat_toNat] at this
+    simpa using this
+
+theorem unescape_spellChar (sp : Spell) (c : Char) (t : Str) :
+    unescape (spellChar sp c ++ t) = (unescape t).map (c :: ·) := by
+  cases sp with
+  | min => exact unescape_escapeChar c t
+  | uLower => exact unescape_escapeCharU false c t
+  | uUpper => exact unescape_escapeCharU true c t
+  | solidus =>
+    simp only [spellChar]
+    by_cases h : c = '/'
+    · subst h
+      simp only [↓reduceIte, List.cons_append, List.nil_append]
+      conv => lhs; unfold unescape
+      simp [simpleEscape]
+    · simp only [h, ↓reduceIte]; exact unescape_escapeChar c t
+
+/-- **the decoded string does not depend on how the JSON text spells it** -/
+theorem unescape_spellWith (sps : List Spell) (s : Str) : unescape (spellWith sps s) = some s := by
+  induction s generalizing sps with
+  | nil => cases sps <;> simp [spellWith, unescape]
+  | cons c cs ih =>
+    cases sps with
+    | nil => simp only [spellWith]; rw [unescape_escapeChar, ih]; rfl
+    | cons sp sps => simp only [spellWith]; rw [unescape_spellChar, ih]; rfl
+
 end Rocfl.Json
